@@ -169,6 +169,9 @@ def build_args(cfg, call, S):
         kw["select"] = {call["group"]: {v: False for v in call["vars"]}}
     elif k == "sort":
         kw["sortby"] = {call["group"]: call["key"]}
+    elif k == "sortx":
+        kw["select"] = list(call["groups"])
+        kw["sortby"] = dict(call["sortby"])
     return kw
 
 
@@ -189,7 +192,7 @@ def expected_groups(cfg, lay, call, part_cpus=None):
     S = lay["S"]
     k = call["kind"]
     present = ["mesh"] + (["part"] if cfg["haspart"] else [])
-    if k == "groups":
+    if k in ("groups", "sortx"):
         present = [g for g in present if g in call["groups"]]
     elif k == "off":
         present = [g for g in present if g not in call["off"]]
@@ -549,6 +552,7 @@ CLASS_CALLS = {
     "vars_mesh": lambda c: c["kind"] == "vars" and c["group"] == "mesh", "vars_part": lambda c: c["kind"] == "vars" and c["group"] == "part",
     "sort_mesh": lambda c: c["kind"] == "sort" and c["group"] == "mesh", "sort_part": lambda c: c["kind"] == "sort" and c["group"] == "part",
     "sort_sink": lambda c: c["kind"] == "sort" and c["group"] == "sink",
+    "sortx_part": lambda c: c["kind"] == "sortx",
 }
 
 
@@ -579,8 +583,25 @@ def run_history(args):
                 with contextlib.redirect_stdout(io.StringIO()):
                     ds = osyris.RamsesDataset(cfg["nout"], path=d)
                     for step, call in enumerate(calls, 1):
+                        held = {g: {k: [cc.values.copy() for cc in common.comps_of(v).values()] for k, v in ds[g].items()} for g in ds.keys()}
                         ds.load(**build_args(cfg, call, lay["S"]))
                         src = h["src"][step - 1]
+                        # groups this call did not produce are kept unchanged - row for row
+                        for g, mem in held.items():
+                            if src.get(g) == step or g not in src:
+                                continue
+                            if g not in ds.keys() or [k for k in ds[g].keys() if k in mem] != list(mem):
+                                detail = f"after call {step}: group {g}, which this call did not load, lost members"
+                                break
+                            for k2, arrs in mem.items():
+                                now = [cc.values for cc in common.comps_of(ds[g][k2]).values()]
+                                if len(now) != len(arrs) or any(not np.array_equal(x, y, equal_nan=True) for x, y in zip(arrs, now)):
+                                    detail = f"after call {step}: group {g} was not loaded by this call, but its member {k2} changed (values or row order)"
+                                    break
+                            if detail:
+                                break
+                        if detail:
+                            break
                         # every group must equal Fresh(the call that produced it)
                         present = sorted(g for g in ds.keys() if g != "sink" or cfg.get("sink_sc"))
                         want = sorted(g for g, k in src.items() if k)
